@@ -6,7 +6,7 @@ import MpVerif.C10.Model
   class C                   ↦ `class C <classify C> <documented C> <candidate C>`
   table                     ↦ one `row FIRST LAST <description>` line per pre-registered entry, then `end-table`
   doctable                  ↦ the hand-written documented table, same format
-  report CODE NOBJ PR DU    ↦ `report CODE NOBJ PR DU | <Report>`
+  report CODE NOBJ PR DU NALT STUB ↦ `report CODE NOBJ PR DU NALT STUB | <Report>`
 -/
 open MpVerif.C10 MpVerif.Gen.Status
 
@@ -39,12 +39,12 @@ def handle (out : IO.FS.Stream) (ws : List String) : IO Unit := do
     for r in documentedSingles do
       out.putStrLn s!"row {r.1} {r.1} {r.2}"
     out.putStrLn "end-table"
-  | ["report", c, n, p, d] =>
-    match c.toInt?, n.toNat?, parseBool p, parseBool d with
-    | some c, some n, some p, some d =>
-      let a : Answer := { code := c, nObj := n, hasPrimal := p, hasDual := d }
-      out.putStrLn s!"report {c} {n} {b2s p} {b2s d} | {(report a).toStr}"
-    | _, _, _, _ => out.putStrLn "bad-op"
+  | ["report", c, n, p, d, k, st] =>
+    match c.toInt?, n.toNat?, parseBool p, parseBool d, k.toNat?, parseBool st with
+    | some c, some n, some p, some d, some k, some st =>
+      let a : Answer := { code := c, nObj := n, hasPrimal := p, hasDual := d, nAlt := k, solStub := st }
+      out.putStrLn s!"report {c} {n} {b2s p} {b2s d} {k} {b2s st} | {(report a).toStr}"
+    | _, _, _, _, _, _ => out.putStrLn "bad-op"
   | _ => out.putStrLn "bad-op"
 
 partial def loop (h : IO.FS.Stream) (out : IO.FS.Stream) : IO Unit := do
